@@ -47,6 +47,7 @@ type stage struct {
 	FPad    int    `json:"filter_pad,omitempty"`
 	// static upper bounds of what the stage can emit
 	maxV, maxLines, maxBytes, maxLen int
+	prodPad                          int
 }
 
 func (s *stage) complete() bool { return s.Reader == "each" || s.Reader == "collect" }
@@ -103,12 +104,15 @@ func genProducer(r *rand.Rand, p *program, s *stage, limitV, limitBytes int, all
 	}
 	pad := 0
 	switch a := r.Intn(10); {
-	case a < 5:
+	case a < 4:
 		pad = 0
-	case a < 8:
+	case a < 7:
 		pad = 20 + r.Intn(200)
 	default:
 		pad = 1000 + r.Intn(3000) // a few dozen such lines overflow the 64 KiB pipe buffer
+		if nb > 0 && nb < 40 && r.Intn(2) == 0 {
+			nb = 40 + r.Intn(40)
+		}
 	}
 	if !allowBig && pad > 150 {
 		pad = r.Intn(100)
@@ -195,6 +199,7 @@ func genProducer(r *rand.Rand, p *program, s *stage, limitV, limitBytes int, all
 	if pad > 0 {
 		p.pads[pad] = true
 	}
+	s.prodPad = pad
 }
 
 func genProgram(r *rand.Rand) *program {
@@ -882,7 +887,7 @@ func runOnce(c *mon.Case, p *program, code string) bool {
 	}
 	// evidence
 	items := 0
-	big := false
+	big, bigBytes := false, false
 	for _, s := range p.Stages {
 		if s.Native != "" {
 			c.Count("native_stage_"+s.Native, 1)
@@ -893,12 +898,24 @@ func runOnce(c *mon.Case, p *program, code string) bool {
 		if len(l.tried['v']) > 32 {
 			big = true
 		}
+		written := 0
+		for _, id := range l.tried['b'] {
+			written += len(id) + 2
+			if strings.Count(id, "/") == 0 {
+				written += s.prodPad
+			} else {
+				written += s.FPad
+			}
+		}
+		if written > 65536 {
+			bigBytes = true
+		}
 	}
 	c.Count("items_received", items)
 	if big {
 		c.Count("pipelines_beyond_channel_buffer", 1)
 	}
-	if len(res.Bytes) > 65536 {
+	if bigBytes {
 		c.Count("pipelines_beyond_pipe_buffer", 1)
 	}
 	if items > 0 {
@@ -922,6 +939,8 @@ func Spec() *mon.Spec {
 			{Name: "pipelines", Quick: 900, Thorough: 24000, Run: runPipeline, GoMaxProcs: 16, Timeout: 150 * time.Second},
 		},
 		HangViolation: true,
-		Floors:        map[string]int{},
+		Floors: map[string]int{"distinct_nontrivial": 250, "complete_reads": 400, "early_exit_readers": 350, "early_exits_noticed_by_writer": 120,
+			"items_received": 20000, "pipelines_beyond_channel_buffer": 150, "pipelines_beyond_pipe_buffer": 10, "pipelines_with_exception": 150,
+			"pipelines_with_several_exceptions": 25, "interleavings": 350},
 	}
 }
